@@ -447,3 +447,60 @@ breaker('C19', 'num2str-7-bytes', 'C19.R4', FSIPY, 'num2str',
 twin('C19', 'minkey-operands-swapped', FSIPY, 'fsIndex.minKey',
      'if key is None or smallest_prefix != key[:6]:',
      'if key is None or not (key[:6] == smallest_prefix):')
+
+# ---------------------------------------------------------------- C20
+breaker('C20', 'new-oid-without-lock', 'C20.R1', BSPY, 'BaseStorage.new_oid',
+        '''        with self._lock:
+            last = self._oid''', '''        if True:
+            last = self._oid''')
+breaker('C20', 'fs-close-resets-counter', 'C20.R1', FSPY, 'FileStorage._clear_temp',
+        '''        self._tindex.clear()''', '''        self._tindex.clear()
+        with self._lock:
+            self._oid = self._index.maxKey() if self._index else z64''')
+breaker('C20', 'fs-restore-no-raise', 'C20.R2', FSPY, 'FileStorage.restore',
+        '''            if oid > self._oid:
+                self.set_max_oid(oid)
+            prev_pos = 0''', '''            prev_pos = 0''')
+breaker('C20', 'fs-store-counter-test-inverted', 'C20.R2', FSPY,
+        'FileStorage.store',
+        '''            if oid > self._oid:
+                self.set_max_oid(oid)''', '''            if oid < self._oid:
+                self.set_max_oid(oid)''')
+breaker('C20', 'set-max-oid-inverted', 'C20.R2', BSPY,
+        'BaseStorage.set_max_oid',
+        'if possible_new_max_oid > self._oid:',
+        'if possible_new_max_oid < self._oid:')
+breaker('C20', 'ms-store-no-raise', 'C20.R2', MSPY, 'MappingStorage.store',
+        '''        self._oid = max(self._oid, ZODB.utils.u64(oid))
+''', '')
+breaker('C20', 'reopen-counter-zero', 'C20.R3', FSPY, 'FileStorage.__init__',
+        '''            self._pos, self._oid, tid = read_index(
+                self._file, file_name, index, tindex, stop,
+                read_only=read_only,
+            )''', '''            self._pos, _maxoid, tid = read_index(
+                self._file, file_name, index, tindex, stop,
+                read_only=read_only,
+            )''')
+breaker('C20', 'ds-new-oid-skip-base-probe', 'C20.R4', DSPY,
+        'DemoStorage.new_oid',
+        '''                        try:
+                            load_current(self.base, oid)
+                        except ZODB.POSException.POSKeyError:
+                            self._next_oid += 1
+                            self._issued_oids.add(oid)
+                            return oid''',
+        '''                        self._next_oid += 1
+                        self._issued_oids.add(oid)
+                        return oid''')
+breaker('C20', 'ds-new-oid-forget-issued', 'C20.R4', DSPY,
+        'DemoStorage.new_oid',
+        '''                            self._issued_oids.add(oid)
+''', '')
+breaker('C20', 'persistent-id-local-counter', 'C20.R5', 'ZODB/serialize.py',
+        'ObjectWriter.persistent_id',
+        'oid = obj._p_oid = self._jar.new_oid()',
+        'oid = obj._p_oid = p64(len(self._stack) + 1)')
+twin('C20', 'fs-store-max-idiom', FSPY, 'FileStorage.store',
+     '''            if oid > self._oid:
+                self.set_max_oid(oid)''', '''            if self._oid < oid:
+                self.set_max_oid(oid)''')
